@@ -60,8 +60,6 @@ type c37Model struct {
 	all  []*c37Work
 	// input classes with their own assertion ids (the model follows the code and
 	// the flag is asserted last):
-	leakBeginError int // BeginQuery returned an error but had already counted the query as running
-	leakRemoved    int // RemoveConnection of a connection whose query was running: the running count is never taken back
 }
 
 func (m *c37Model) connected() int {
@@ -201,7 +199,6 @@ func (w *c37World) apply(id string, s c37Step) {
 		mustFail := cn.state == c37Absent || m.pidInUse(s.pid)
 		nd.Assert(id+".begin-query.fails-iff-unregistered-or-pid-in-use", (err != nil) == mustFail)
 		if err != nil {
-			m.leakBeginError++
 			break
 		}
 		cn.running, cn.query, cn.pid, cn.work, cn.rctx = c37Query, c37Queries[s.c], s.pid, w.started(rctx), rctx
@@ -240,7 +237,6 @@ func (w *c37World) apply(id string, s c37Step) {
 			}
 			orphan := cn.orphan
 			if cn.running == c37Query {
-				m.leakRemoved++
 				orphan = cn.rctx
 			}
 			*cn = c37Conn{orphan: orphan}
@@ -292,7 +288,7 @@ func (w *c37World) check(id string) {
 	tc, ok1 := c37Counter("Threads_connected")
 	tr, ok2 := c37Counter("Threads_running")
 	nd.Assert(id+".threads-connected", ok1 && tc == uint64(m.connected()))
-	nd.Assert(id+".threads-running", ok2 && tr == uint64(m.runningQueries()+m.leakBeginError+m.leakRemoved))
+	nd.Assert(id+".threads-running", ok2 && tr == uint64(m.runningQueries()))
 }
 
 // c37Run: every protocol-conforming history of n steps; the longest ones only
@@ -355,8 +351,6 @@ func c37Run(id string, n, longest int) {
 			break
 		}
 	}
-	nd.Assert("c37.begin-query-error.threads-running-unchanged", w.m.leakBeginError == 0)
-	nd.Assert("c37.remove-connection-with-running-query.threads-running-taken-back", w.m.leakRemoved == 0)
 }
 
 // simulate: the model transition alone (used to validate a drawn history).
